@@ -276,7 +276,43 @@ def x_subprocess(ctx, case):
     return True
 
 
-SUBCHECKS = {"tree": x_tree, "run": x_run, "subprocess": x_subprocess}
+def x_discover(ctx, case):
+    """`testtools.run discover`: the discovered tests are listed / run sorted by id."""
+    d = tempfile.mkdtemp(prefix="tvm-c19-")
+    try:
+        pkg = os.path.join(d, "tvmpkg")
+        os.mkdir(pkg)
+        open(os.path.join(pkg, "__init__.py"), "w").close()
+        ids = []
+        for mod, names in case["modules"].items():
+            with open(os.path.join(pkg, "test_%s.py" % mod), "w") as f:
+                f.write("import testtools\nclass T(testtools.TestCase):\n")
+                for n in names:
+                    f.write("    def test_%s(self):\n        print('RAN:' + self.id())\n" % n)
+                    ids.append("tvmpkg.test_%s.T.test_%s" % (mod, n))
+        keep = [i for i in ids if i in set(case["keep"])] if case.get("keep") is not None else None
+        with open(os.path.join(d, "ids.list"), "w") as f:
+            f.write("\n".join(case.get("keep") or []) + "\n")
+        env = dict(os.environ, PYTHONPATH=os.pathsep.join([core.REPO_ROOT, d]))
+        r = subprocess.run([sys.executable, "-m", "testtools.run", "discover", "-s", pkg, "-t", d, "--list"],
+                           capture_output=True, text=True, env=env, cwd=d, timeout=120)
+        listed = r.stdout.split("\n")[:-1]
+        ctx.check(r.returncode == 0 and listed == sorted(ids), "run.list-prints-exactly-the-ids",
+                  lambda: {"discover": True, "rc": r.returncode, "listed": listed, "want": sorted(ids),
+                           "stderr": r.stderr[-300:]})
+        r = subprocess.run([sys.executable, "-m", "testtools.run", "discover", "-s", pkg, "-t", d,
+                            "--load-list", os.path.join(d, "ids.list")],
+                           capture_output=True, text=True, env=env, cwd=d, timeout=120)
+        ran = [l[4:] for l in r.stdout.split("\n") if l.startswith("RAN:")]
+        want = sorted(i for i in ids if i in set(case.get("keep") or []))
+        ctx.check(sorted(ran) == want and len(ran) == len(want), "run.load-list-runs-exactly-the-listed",
+                  lambda: {"discover": True, "ran": ran, "want": want, "stderr": r.stderr[-300:]})
+    finally:
+        shutil.rmtree(d, ignore_errors=True)
+    return True
+
+
+SUBCHECKS = {"tree": x_tree, "run": x_run, "subprocess": x_subprocess, "discover": x_discover}
 
 ID_POOL = ["a", "b", "c", "d", "mod.T.test_x", "mod.T.test_x (slow)", "mod.T.test y[big endian]",
            "é.test", "z z", "B", "a.b", "a b"]
@@ -369,3 +405,6 @@ def run(ctx):
                           ["leaf", "mod.T.test_x (slow)"]]]
         L = leaves(tree)
         ctx.execute("subprocess", {"tree": tree, "keep": [x for x in L if rng.random() < 0.6]})
+    if ctx.shard == 0:
+        ctx.execute("discover", {"modules": {"b": ["z", "a"], "a": ["m", "c", "b"]},
+                                 "keep": ["tvmpkg.test_a.T.test_c", "tvmpkg.test_b.T.test_z", "absent.id"]})
